@@ -857,6 +857,49 @@ func init() {
 				r = append(r, inst(p, "VerifC15HSlice", itoa(x.sv), itoa(x.ss), itoa(x.fl), itoa(x.ps), itoa(x.sh), itoa(cl)))
 			}
 		}
+		// P and B slice segment headers: (sps, fixLog2, pps shape, slice shape, stype, pb shape)
+		type pbx struct {
+			sp             [2]int
+			fl, ps, sh, st int
+			pb             int
+		}
+		spsG := [2]int{64, 1 + 128*6} // one explicit RPS: 2 negative + 1 positive picture
+		var pbs []pbx
+		addPB := func(sp [2]int, fl, ps int, sh int, pbShapes ...int) {
+			for _, st := range []int{1, 0} {
+				for _, b := range pbShapes {
+					pbs = append(pbs, pbx{sp, fl, ps, sh, st, b})
+				}
+			}
+		}
+		used := func(bits int) int { return bits << 10 }
+		// slice shapes: 1+2 first segment TRAIL_R with its own RPS; +16 RPS from the SPS; (k<<13) RPS shape
+		addPB(spsA, 1, 0, 1+2+(2<<13), used(3), 1+2+4+used(3), 512+2+used(1), 512+4+128+used(2))
+		addPB(spsA, 1, 8192, 1+2+(2<<13), 8+used(3), 8+16+2+4+used(3), 8+used(1), 8+16+used(0))
+		addPB(spsA, 1, 8192+16384, 1+2+(6<<13), 8+16+1+2+used(7), 512+2+4+used(5))
+		addPB(spsA, 1, 0, 1+2+(2<<13), 256+used(3), 256+32+used(3), 256+32+64+2+4+used(1), 256+64+1+2+used(2))
+		addPB(spsE, 1, 0, 1+2+(2<<13), 256+32+64+used(3)) // separate colour planes: ChromaArrayType 0
+		addPB(spsG, 1, 8192, 1+2+16, 8+16+2+used(7), 8+used(1), 256+32+used(6))
+		addPB(spsB, 1, 8192, 1+2+16, 8+16+used(3), 8+512+used(1+4)) // set 0 or 1 (inter-predicted) of the SPS
+		addPB(spsB, 1, 8192, 1+2+(1<<13), 8+used(3))                // inter-predicted RPS in the slice header
+		spsB2 := [2]int{128, 1 + 128*(2+56)}                        // set 1 inter-predicted with two used pictures
+		addPB(spsB2, 1, 8192, 1+2+16, 8+512+used(3), 8+16+512+2+used(3))
+		addPB(spsB2, 1, 8192, 1+2+(7<<13), 8+used(3)) // slice RPS predicted from set 1, two used pictures
+		addPB(spsA, 1, 1+2+4+16+256+512+1024+8192+16384, 2+(2<<13), 8+1+2+256+32+used(3), 512+4+128+used(3))
+		if tier == "thorough" {
+			for k := 0; k < 60; k++ {
+				sp := [][2]int{spsA, spsG, spsB, spsE}[k%4]
+				addPB(sp, 1, (k*2654435761)>>7&0x7fff, 1+2+((k%2)*16)+((k%8)<<13), (k*40503)&0x3ff+used(k%8))
+			}
+		}
+		for i, x := range pbs {
+			for ci, cl := range []int{0, 1, 1001, 3} {
+				if tier != "thorough" && (i+ci)%2 == 1 {
+					continue
+				}
+				r = append(r, inst(p, "VerifC15HSlicePB", itoa(x.sp[0]), itoa(x.sp[1]), itoa(x.fl), itoa(x.ps), itoa(x.sh), itoa(cl), itoa(x.st), itoa(x.pb)))
+			}
+		}
 		for k, cs := range []int{0, 1 + 4 + 8, 2 + 16 + 32, 3 + 4 + 16 + 64, 8 + 96, 4 + 128, 16 + 160} {
 			if tier != "thorough" && k >= 5 {
 				break
